@@ -42,7 +42,7 @@ func (g *jsGen) key() string {
 }
 
 func (g *jsGen) prim() string {
-	return g.pick("0", "1", "-1", "2", "7", "0.5", "-0", "NaN", "Infinity", "1e21", "4294967295", `""`, `"a"`, `"ab"`, `"é"`, `"1"`, "true", "false", "null", "undefined")
+	return g.pick("0", "1", "-1", "2", "7", "0.5", "-0", "NaN", "Infinity", "1e21", "65535", `""`, `"a"`, `"ab"`, `"é"`, `"1"`, "true", "false", "null", "undefined")
 }
 
 func (g *jsGen) boolean() string { return g.pick("true", "false") }
